@@ -467,7 +467,8 @@ Theorem C18_call_order_from_source :
   calls_DeleteCredential = [b "cfg.rwLock.Lock"; b "cfg.rwLock.Unlock"; b "cfg.saveFile"] /\
   calls_SetCredentialsStore = [b "cfg.rwLock.Lock"; b "cfg.rwLock.Unlock"; b "cfg.saveFile"] /\
   calls_GetCredential = [b "cfg.rwLock.RLock"; b "cfg.rwLock.RUnlock"; b "json.Unmarshal"] /\
-  calls_IsAuthConfigured = [b "cfg.rwLock.RLock"; b "cfg.rwLock.RUnlock"].
+  calls_IsAuthConfigured = [b "cfg.rwLock.RLock"; b "cfg.rwLock.RUnlock"] /\
+  calls_getHelperSuffix = [b "ds.config.GetCredentialHelper"; b "ds.config.CredentialsStore"].
 Proof. exact call_orders. Qed.
 Print Assumptions C18_call_order_from_source.
 
